@@ -9,7 +9,7 @@ PID = "C09"
 
 RULE = (
     "Episodes = generated schedules over the C07/C08 alphabet (sends, losses, timeouts, late/duplicate/foreign packets, "
-    "write failures, disconnects, pause/resume, sends abandoned by the application 0..15 s after the call (outer cancellation), exactly coincident timers) run to completion, then 30+ virtual seconds "
+    "write failures, disconnects, pause/resume, sends abandoned by the application 0..15 s after the call (outer cancellation), 1..6 overheard third-party packets (one corpus frame per verb/code/length group with foreign device numbers, optionally with an index byte where the code expects none) at generated instants, exactly coincident timers) run to completion, then 30+ virtual seconds "
     "of silence; quiescence check: state idle (inactive if disconnected), no future/command/timer in flight, every "
     "caller answered, queue drained, the sender's own consistency check evaluates, nothing reached the loop's exception "
     "handler, and a fresh probe command to a responsive device succeeds. Non-trivial as C07."
